@@ -29,7 +29,7 @@ RULE = ("seeded random graphs: grid with one grid meter or 1-4 arbitrary success
         "dedicated / mixed / load-only meters, battery inverters with 1-2 batteries, PV inverters, EV chargers, CHPs "
         "behind a CHP meter. distinct = canonical graph+assignment JSON; non-trivial = >=2 device classes present "
         "and >=1 meter")
-REQUIRED_BUCKETS = ["no-grid-meter", "single-grid-meter", "several-grid-successors", "nested-meters",
+REQUIRED_BUCKETS = ["formula-for-a-sub-set-of-the-devices", "no-grid-meter", "single-grid-meter", "several-grid-successors", "nested-meters",
                     "device-directly-under-grid", "grid-meter-over-one-device-kind-with-building-load", "mixed-meter", "dedicated-meter", "load-only-meter", "has-chp",
                     "has-battery", "has-pv", "has-ev", "fallback-formula-evaluated", "battery-behind-several-inverters"]
 REQUIRED_COUNTERS = ["formulas_evaluated", "balance_checks", "graphs_valid"]
@@ -253,6 +253,40 @@ def check(case: dict[str, Any], rec: Any) -> None:
     gens = {"grid": (GridPowerFormula, None), "consumer": (ConsumerPowerFormula, None),
             "producer": (ProducerPowerFormula, None), "battery": (BatteryPowerFormula, bat_ids),
             "ev": (EVChargerPowerFormula, ev_ids), "pv": (PVPowerFormula, None), "chp": (CHPPowerFormula, None)}
+    # proper sub-sets (deterministic in the case): some PV inverters, some EV chargers, some battery groups
+    import random as _random
+
+    sr = _random.Random(len(case["edges"]) * 131 + len(kinds))
+    subsets: dict[str, Any] = {}
+
+    def _proper(items: list[Any]) -> list[Any]:
+        k = sr.randint(1, len(items) - 1)
+        return sorted(sr.sample(items, k))
+
+    pv_ids = sorted(n for n, k in kinds.items() if k == "pvinv")
+    if len(pv_ids) >= 2:
+        sub = _proper(pv_ids)
+        subsets["pv"] = (PVPowerFormula, sub, lambda own, sub=sub: sum(own[n] for n in sub))
+    if len(ev_ids) >= 2:
+        sub = _proper(sorted(ev_ids))
+        subsets["ev"] = (EVChargerPowerFormula, sub, lambda own, sub=sub: sum(own[n] for n in sub))
+    # battery groups: inverters and batteries connected to each other
+    grp_of: dict[int, int] = {}
+    for n, k in sorted(kinds.items()):
+        if k == "batinv" and n not in grp_of:
+            todo = [n]
+            while todo:
+                x = todo.pop()
+                if x in grp_of:
+                    continue
+                grp_of[x] = n
+                todo += [c for c in children[x] if kinds[c] == "bat"] + [q for q in parents[x] if kinds[q] == "batinv"]
+    bgroups = sorted(set(grp_of.values()))
+    if len(bgroups) >= 2:
+        chosen = set(_proper(bgroups))
+        sub_b = sorted(n for n, g in grp_of.items() if g in chosen and kinds[n] == "bat")
+        sub_i = sorted(n for n, g in grp_of.items() if g in chosen and kinds[n] == "batinv")
+        subsets["battery"] = (BatteryPowerFormula, sub_b, lambda own, sub_i=sub_i: sum(own[n] for n in sub_i))
     shown = None
     for assign in case["assigns"]:
         own = {int(k): v for k, v in assign["own"].items()}
@@ -310,6 +344,29 @@ def check(case: dict[str, Any], rec: Any) -> None:
                 if not (val == val) or not math.isclose(val, truth[name], abs_tol=1e-6):
                     rec.violation("formula-differs-from-true-total", {**w, "got": None if val != val else val,
                                                                       "error": None if val != val else val - truth[name]})
+            # the same generators asked for a proper sub-set of the devices (a pool over some of the PV inverters,
+            # EV chargers or battery groups): the true total is the one of the requested devices
+            for name, (cls, ids, expected) in subsets.items():
+                exp = expected(own)
+                w = {"formula": name + "(sub-set)", "component_ids": sorted(ids), "allow_fallback": fb, "nodes": case["nodes"],
+                     "edges": case["edges"], "own": assign["own"], "load": assign["load"], "expected": exp}
+                try:
+                    eng = cls("ns", ChannelRegistry(name="x"), MagicMock(),
+                              FormulaGeneratorConfig(component_ids=set(ids), allow_fallback=bool(fb))).generate()
+                    w["engine"] = str(eng)
+                    val = _evaluate(eng, values, rec, fail_primaries=(fb == "primaries-failed"))
+                except Exception as e:  # pylint: disable=broad-except
+                    from ..common import HarnessError, raised_in_repo
+
+                    if not raised_in_repo(e):
+                        raise HarnessError(f"{type(e).__name__}: {e}") from e
+                    rec.violation("formula-generation-or-evaluation-raised", {**w, "error": f"{type(e).__name__}: {e}"[:300]})
+                    continue
+                rec.count("subset_formulas_evaluated")
+                rec.bucket("formula-for-a-sub-set-of-the-devices")
+                if not (val == val) or not math.isclose(val, exp, abs_tol=1e-6):
+                    rec.violation("formula-differs-from-true-total", {**w, "got": None if val != val else val,
+                                                                      "error": None if val != val else val - exp})
             if all(k in got and got[k] == got[k] for k in ("grid", "consumer", "producer", "battery", "ev")):
                 rec.count("balance_checks")
                 s = got["consumer"] + got["producer"] + got["battery"] + got["ev"]
